@@ -37,7 +37,7 @@ AXIOMS_OK = []          # the theorems are closed under the global context
 # second tie to the code (tools/py2coq.py guard mode + coq/theories/GenProofs): the tests that enclose `self.train()` in
 # SurrogateModelPredict.evaluate_individual are translated on every run and proved equal to the model's retrain condition
 from harness.core import translated_specs
-TRANSLATED = translated_specs("SurrogateGuardGen")
+TRANSLATED = translated_specs("SurrogateGuardGen", "SurrogateEvalGen")
 TRUSTED = [
     "Coq 8.16.1 kernel, vm_compute for model evaluation (no native_compute)",
     "hand-written model Model/Surrogate.v tied to surrogate.py / surrogate_scikit.py by this correspondence run",
